@@ -1430,7 +1430,7 @@ class WCS(GWCSAPIMixin):
                 raise ValueError('This WCS does not have axis of type "{}".'.format(axis_type))
             result = np.asarray([(r.min(), r.max()) for r in result[axtyp_ind]])
 
-            if axis_type == "spatial":
+            if axis_type == "spatial" and len(result) == 2:
                 result = _order_clockwise(result)
             else:
                 result.sort()
